@@ -52,10 +52,12 @@ lalrpop_mod!(
 );
 
 fn main() {
-    let mut args = std::env::args();
+    // We use `args_os` because `args` panics if an argument (such as the
+    // script path) isn't valid Unicode.
+    let mut args = std::env::args_os();
     let prog =
         match args.next() {
-            Some(v) => v,
+            Some(v) => v.to_string_lossy().into_owned(),
             None => {
                 eprintln!("couldn't get program name");
                 process::exit(101);
@@ -72,6 +74,7 @@ fn main() {
         };
 
     let cur_rel_script_path = Path::new(&raw_cur_rel_script_path);
+    let raw_cur_rel_script_path = raw_cur_rel_script_path.to_string_lossy();
 
     if let Err(e) = run(cur_rel_script_path) {
         let msg =
